@@ -146,6 +146,9 @@ pub(crate) struct RecentSnapshot {
     /// False when older bytes of the first line have been evicted, i.e. `bytes` begins in the
     /// middle of a line and columns cannot be mapped onto that line.
     pub starts_at_line_start: bool,
+    /// True when the stream began with a UTF-16 byte-order mark: the retained bytes are then
+    /// not UTF-8 text (they are recorded before decoding) and cannot be shown as a snippet.
+    pub utf16: bool,
 }
 
 /// A `Read` wrapper that:
@@ -169,6 +172,9 @@ pub(crate) struct RingReader<R> {
     // Whether ring[0] is the first byte of its line (false once the ring has dropped the
     // beginning of the line it starts in).
     ring_starts_at_line_start: bool,
+    // The first two bytes of the stream (to recognise a UTF-16 byte-order mark later on).
+    head: [u8; 2],
+    head_len: usize,
 
     // Read-ahead bytes (only filled by get_recent()).
     //
@@ -200,6 +206,8 @@ impl<R> RingReader<R> {
             ring_start_offset: 0,
             ring_start_line: 1,
             ring_starts_at_line_start: true,
+            head: [0; 2],
+            head_len: 0,
             stash: FixedRingBuffer::new(),
             returned_total: 0,
         }
@@ -272,6 +280,7 @@ impl<R> RingReader<R> {
             start_line,
             bytes,
             starts_at_line_start,
+            utf16: self.head_len == 2 && matches!(self.head, [0xFF, 0xFE] | [0xFE, 0xFF]),
         })
     }
 
@@ -296,6 +305,10 @@ impl<R> RingReader<R> {
         let mut off = abs_start;
 
         for &b in bytes {
+            if self.head_len < self.head.len() && off == self.head_len as u64 {
+                self.head[self.head_len] = b;
+                self.head_len += 1;
+            }
             if self.ring.is_empty() {
                 self.ring_start_offset = off;
             }
